@@ -225,7 +225,29 @@ pub fn run<C: RandomizedCiphersuite, L: Lab<C>>(lab: &mut L, p: &Params) {
             let before = lab.rng_requests().len();
             let r = v.verify(&mut *lab.rng());
             lab.check(r.is_ok(), "a batch of valid signatures verifies");
-            lab.check(lab.rng_requests().len() - before == k, "batch verification draws exactly one blinder per item");
+            lab.check(lab.rng_requests().len() > before, "batch verification takes its blinders from the caller's source");
+            // the blinders are independent fresh values: whatever errors are put on the responses of
+            // the first and the last item (free, non-zero), no choice of them makes the batch pass
+            // for the blinders drawn afterwards (how many draws are made is not prescribed)
+            let mut v2 = fc::batch::Verifier::<C>::new();
+            for j in 0..k {
+                let sk = lab.nz_scalar(&format!("sk'{j}"));
+                let key = fc::SigningKey::<C>::from_scalar(sk).unwrap();
+                let vk = fc::VerifyingKey::<C>::from(&key);
+                let msg = lab.message(&format!("m'{j}"));
+                let mut sig = key.sign(&mut *lab.rng(), &msg);
+                if j == 0 || j == k - 1 {
+                    let e = lab.adv_scalar(&format!("e{j}"));
+                    lab.assume_ne_s(e, zero::<C>(), "the response is altered");
+                    sig = fc::Signature::<C>::new(*sig.R(), *sig.z() + e);
+                }
+                if let Ok(it) = fc::batch::Item::<C>::new(vk, sig, &msg) {
+                    v2.queue(it);
+                }
+            }
+            let mk = lab.mark();
+            let r2 = v2.verify(&mut *lab.rng());
+            lab.expect_reject(mk, r2.is_ok(), "independent blinders: altered responses on two items never cancel");
             lab.leave();
         }
     }
